@@ -126,6 +126,57 @@ def to_abstract(elems):
              "criteria": e.get("criteria", [])} for e in elems]
 
 
+SC_NAMES = ("K1", "K2", "K3")
+
+
+def sysconst_text(pairs):
+    """a module whose MOD_PAR holds the given SYSTEM_CONSTANTs ([[name, value]])"""
+    lines = ["ASAP2_VERSION 1 71", '/begin PROJECT p ""', '  /begin MODULE m ""', '    /begin MOD_PAR ""']
+    for n, v in pairs:
+        lines.append(f'      SYSTEM_CONSTANT "{n}" "{v}"')
+    lines += ["    /end MOD_PAR", "  /end MODULE", "/end PROJECT"]
+    return "\n".join(lines) + "\n"
+
+
+def sysconst_of_tree(tree):
+    mp = gm.module_of(tree).get("mod_par") or {}
+    return [[gm._s(e.get("name")), gm._s(e.get("value"))] for e in mp.get("system_constant") or []]
+
+
+def sysconst_cases():
+    """every assignment of (absent | value) in A and (absent | same value | other value) in B to three names, B's order reversed"""
+    import itertools
+    out = []
+    for st in itertools.product(range(6), repeat=len(SC_NAMES)):
+        a, b = [], []
+        for n, x in zip(SC_NAMES, st):
+            ina, inb = x % 2, x // 2
+            if ina:
+                a.append([n, "va_" + n])
+            if inb == 1:
+                b.append([n, "va_" + n])
+            elif inb == 2:
+                b.append([n, "vb_" + n])
+        out.append({"a": sysconst_text(a), "b": sysconst_text(list(reversed(b)))})
+    return out
+
+
+def sysconst_events(binp, pid, tag):
+    sc = sysconst_cases()
+    out = graphlib.run_ops(binp, [{"id": i, "a": c["a"], "b": c["b"], "ops": ["merge"]} for i, c in enumerate(sc)], f"sysconst_{tag}_{pid}")
+    evs = []
+    for i, c in enumerate(sc):
+        r = out.get(i)
+        if r is None or "snaps" not in r:
+            vlib.tool_error(f"SYSTEM_CONSTANT case does not load: {r}")
+        sn = r["snaps"][1]
+        if "panic" in sn:
+            evs.append((c, None, sn["panic"]))
+            continue
+        evs.append((c, {"ev": "sysconst", "A": sysconst_of_tree(r["snaps"][0]["tree"]), "B": sysconst_of_tree(r["b_tree"]), "R": sysconst_of_tree(sn["tree"])}, None))
+    return evs
+
+
 def run(pid, tier, selftest):
     t0 = time.time()
     rep = vlib.Reporter(pid)
@@ -176,6 +227,19 @@ def run(pid, tier, selftest):
         rep.violation(f"merge:{'+'.join(names)}:site={c['id']['site']}",
                       f"merge result violates {names} (case {c['id']})",
                       {"kind": "merge", "case": c, "a": mo[i]["a"], "b": mo[i]["b"], "event": events[k]})
+    nsc = 0
+    if pid == "C08":
+        sce = sysconst_events(binp, pid, "run")
+        live = [(c, e) for c, e, pn in sce if e is not None]
+        for c, e, pn in sce:
+            if pn is not None:
+                rep.violation("merge:panic:site=SYSTEM_CONSTANT", f"merge_modules panicked: {pn}", {"kind": "sysconst", "a": c["a"], "b": c["b"]})
+        fsc, _ = graphlib.judge([e for _, e in live], f"Trace_Graph_{pid}", pid + "_sc")
+        nsc = len(live)
+        for k, names in sorted(fsc.items()):
+            c, e = live[k]
+            rep.violation(f"merge:{'+'.join(names)}:site=SYSTEM_CONSTANT", f"merged SYSTEM_CONSTANTs violate {names}: A={e['A']} B={e['B']} R={e['R']}",
+                          {"kind": "sysconst", "a": c["a"], "b": c["b"], "event": e})
     binding = None
     if selftest or thorough:
         # corrupt one observed result: drop a reference / rename an element
@@ -186,6 +250,9 @@ def run(pid, tier, selftest):
         f1, _ = graphlib.judge([ev], "Trace_Graph_C09", "selftest1")
         f2, _ = graphlib.judge([ev2], "Trace_Graph_C08", "selftest2")
         binding = {"corrupted_reference_rejected": 0 in f1, "dropped_element_of_A_rejected": 0 in f2}
+        if pid == "C08":
+            f3, _ = graphlib.judge([{"ev": "sysconst", "A": [["K1", "va"]], "B": [["K1", "vb"]], "R": [["K1", "va"], ["K1", "vb"]]}], "Trace_Graph_C08", "selftest3")
+            binding["system_constant_name_twice_rejected"] = f3.get(0) == ["SysConstNamesUnique"]
         if not all(binding.values()):
             vlib.tool_error(f"binding selftest failed: {binding}")
     modes = {}
@@ -205,6 +272,7 @@ def run(pid, tier, selftest):
         "random_pairs": len(rand_cases),
         "expected_violation_config": {"cfg": "MC_Merge_Missing", "violated": res_m.violation},
         "events_rejected": len(failed),
+        "system_constant_pairs": nsc,
     }
     if binding:
         cov["binding_mutations_rejected"] = binding
@@ -228,6 +296,17 @@ def replay(pid, path):
         res = vlib.tlc("MC_Merge", cfg=case["cfg"], workers=8, coverage=False, timeout=1800, expect_violation=True)
         if res.violation:
             rep.violation(f"merge-spec:{res.violation}", "TLC property violated", case)
+    elif case.get("kind") == "sysconst":
+        out = graphlib.run_ops(binp, [{"id": 0, "a": case["a"], "b": case["b"], "ops": ["merge"]}], "replay")
+        r0 = out[0]
+        sn = r0["snaps"][1]
+        if "panic" in sn:
+            rep.violation("merge:panic", sn["panic"], case)
+        else:
+            ev = {"ev": "sysconst", "A": sysconst_of_tree(r0["snaps"][0]["tree"]), "B": sysconst_of_tree(r0["b_tree"]), "R": sysconst_of_tree(sn["tree"])}
+            failed, _ = graphlib.judge([ev], f"Trace_Graph_{pid}", "replay")
+            if failed:
+                rep.violation(f"merge:{'+'.join(failed[0])}", f"merged SYSTEM_CONSTANTs violate {failed[0]}", case)
     else:
         out = graphlib.run_ops(binp, [{"id": 0, "a": case["a"], "b": case["b"], "ops": ["merge"]}], "replay")
         r0 = out[0]
